@@ -6,7 +6,8 @@ verus! {
 pub enum OperationError { EmptyRequest, Backend }
 pub struct Cid { pub ts: Duration, pub s_uuid: Uuid }
 pub struct IDLBitRange { pub o: int }
-impl IDLBitRange { #[verifier::external_body] pub fn is_empty(&self) -> (r: bool) { unimplemented!() } }
+impl IDLBitRange { #[verifier::external_body] pub fn is_empty(&self) -> (r: bool) { unimplemented!() }
+    #[verifier::external_body] pub fn default() -> (r: IDLBitRange) { unimplemented!() } }
 pub struct EntryChangeState { pub o: int }
 impl EntryChangeState {
     pub uninterp spec fn cids(&self) -> Set<Cid>;      // every change id the state mentions (creation, per-attribute, tombstone)
